@@ -1,3 +1,118 @@
-From TV Require Import Base.
-Theorem C04_placeholder : True. Proof. exact I. Qed.
-Print Assumptions C04_placeholder.
+(* C04 -- expect() reports the first match and accounts for every consumed byte.
+   Property theorems only; proofs are in ProofC04.v (and ProofC06.v for the deadline). *)
+From TV Require Import Base BaseLemmas Utf8 Regex RegexLemmas Channel ChannelLemmas ProofC02 ProofC03 ProofC04 ProofC06.
+
+(* (1) when expect returns it consumed exactly `data`; the result is computed from the whole of what
+       was consumed; nothing else of the channel changed *)
+Theorem C04_result_from_all_consumed_data :
+  forall fuel start tmo pats buf c r c',
+  wfc c -> expect_loop fuel start tmo pats buf c = (Ret r, c') ->
+  exists data,
+    data <> [] /\ cpend c = data ++ cpend c' /\
+    try_patterns 0 pats (buf ++ data) = Some r /\ same_cfg c c' /\ wfc c'.
+Proof. exact expect_loop_sound. Qed.
+Print Assumptions C04_result_from_all_consumed_data.
+
+(* (2) "as soon as ... and not before; never reads another piece once a match exists":
+       the consumed data is a sequence of pieces; after every proper prefix of that sequence no
+       pattern matched, after the last piece one does *)
+Theorem C04_returns_at_first_piece_with_a_match :
+  forall fuel start tmo pats buf c r c',
+  wfc c -> expect_loop fuel start tmo pats buf c = (Ret r, c') ->
+  exists pieces,
+    pieces <> [] /\ Forall (fun p => p <> []) pieces /\
+    cpend c = concat pieces ++ cpend c' /\
+    try_patterns 0 pats (buf ++ concat pieces) = Some r /\
+    (forall k, k < length pieces - 0 -> 0 < k ->
+               try_patterns 0 pats (buf ++ concat (firstn k pieces)) = None).
+Proof. exact expect_loop_not_before. Qed.
+Print Assumptions C04_returns_at_first_piece_with_a_match.
+
+Theorem C04_loop_step :
+  forall f start tmo pats buf c,
+  expect_loop (S f) start tmo pats buf c =
+  match iter_step start tmo READ_CHUNK_SIZE c with
+  | (STimeout, c') => (ETimeout, c')
+  | (SBlocked, c') => (EBlocked, c')
+  | (SDeath e mt, c') => (EDeath e mt, c')
+  | (SData new, c') =>
+      match try_patterns 0 pats (buf ++ new) with
+      | Some r => (Ret r, c')
+      | None => expect_loop f start tmo pats (buf ++ new) c'
+      end
+  end.
+Proof. exact expect_loop_step. Qed.
+Print Assumptions C04_loop_step.
+
+(* (3) the result names the LOWEST-indexed pattern that matches the consumed data; before / match /
+       after are the three parts of the consumed buffer around that pattern's hit, so that
+       before ++ match ++ after is the whole of it (byte level; the text fields are text(.) of them) *)
+Theorem C04_lowest_index_and_accounting :
+  forall pats i buf r,
+  try_patterns i pats buf = Some r ->
+  exists j p a b,
+    nth_error pats j = Some p /\ er_idx r = i + j /\
+    (forall j' p', j' < j -> nth_error pats j' = Some p' -> pat_hit p' buf = None) /\
+    pat_hit p buf = Some (a, b) /\ a <= b <= length buf /\
+    er_match r = sublist a b buf /\
+    er_before r = text (firstn a buf) /\ er_after r = text (skipn b buf) /\
+    firstn a buf ++ er_match r ++ skipn b buf = buf.
+Proof. exact try_patterns_spec. Qed.
+Print Assumptions C04_lowest_index_and_accounting.
+
+Theorem C04_no_result_means_no_pattern_matches :
+  forall pats i buf,
+  try_patterns i pats buf = None -> forall p, In p pats -> pat_hit p buf = None.
+Proof. exact try_patterns_none. Qed.
+Print Assumptions C04_no_result_means_no_pattern_matches.
+
+(* (4) what a hit is: literals -- the FIRST occurrence *)
+Theorem C04_literal_hit_is_first_occurrence :
+  forall l buf a b,
+  pat_hit (SLit l) buf = Some (a, b) ->
+  b = a + length l /\ (exists x y, buf = x ++ l ++ y /\ length x = a) /\
+  (forall x y, buf = x ++ l ++ y -> a <= length x).
+Proof. exact pat_hit_literal. Qed.
+Print Assumptions C04_literal_hit_is_first_occurrence.
+
+Theorem C04_literal_no_hit :
+  forall l buf, pat_hit (SLit l) buf = None -> forall x y, buf <> x ++ l ++ y.
+Proof. exact pat_hit_literal_none. Qed.
+Print Assumptions C04_literal_no_hit.
+
+(* regexes -- the LEFTMOST start position of a word of the language *)
+Theorem C04_regex_hit_is_leftmost :
+  forall r buf a b,
+  pat_hit (SRe r) buf = Some (a, b) ->
+  (exists w rest, skipn a buf = w ++ rest /\ lang r w) /\
+  (forall j w rest, j < a -> skipn j buf = w ++ rest -> ~ lang r w).
+Proof. exact pat_hit_regex. Qed.
+Print Assumptions C04_regex_hit_is_leftmost.
+
+Theorem C04_regex_no_hit :
+  forall r buf,
+  pat_hit (SRe r) buf = None -> forall j w rest, j <= length buf -> skipn j buf = w ++ rest -> ~ lang r w.
+Proof. exact pat_hit_regex_none. Qed.
+Print Assumptions C04_regex_no_hit.
+
+(* (5) no match: TimeoutError exactly at the deadline; keeps waiting when no timeout was given *)
+Theorem C04_timeout_at_deadline :
+  forall pats T c r c',
+  (0 <= T)%Z -> expect pats (Some T) c = (r, c') ->
+  (nowc c' <= nowc c + T)%Z /\ (r = ETimeout -> nowc c' = (nowc c + T)%Z) /\ r <> EBlocked.
+Proof. exact deadline_expect. Qed.
+Print Assumptions C04_timeout_at_deadline.
+
+Theorem C04_no_timeout_without_deadline :
+  forall fuel start pats buf c c', expect_loop fuel start None pats buf c <> (ETimeout, c').
+Proof. exact expect_loop_none_no_timeout. Qed.
+Print Assumptions C04_no_timeout_without_deadline.
+
+Theorem C04_example :
+  let c := chan_init [(0%Z, [120; 97]%N); (0%Z, [98; 99; 121]%N); (0%Z, [122]%N)] [] in
+  match fst (expect [SLit [98; 99]%N; SLit [97; 98]%N] None c) with
+  | Ret r => (er_idx r, er_match r, er_before r, er_after r) = (0%nat, [98; 99]%N, [120; 97]%N, [121]%N)
+  | _ => False
+  end.
+Proof. exact expect_example. Qed.
+Print Assumptions C04_example.
